@@ -288,7 +288,10 @@ def gen_crafted(rng, kind=None):
                 corrupt = ("magic", rng.below(nblocks))
         if corrupt and valid:
             valid = False
-            if corrupt[0] in ("blkcrc", "magic"):
+            if corrupt[0] == "blkcrc":
+                # the buffers of the bad block that precede its last one are written before the CRC is compared
+                plain_ok = b"".join(chunks[:corrupt[1] + 1])
+            elif corrupt[0] == "magic":
                 plain_ok = b"".join(chunks[:corrupt[1]])
             else:
                 plain_ok = b"".join(chunks)
@@ -700,3 +703,129 @@ def replay_runs(specs, workdir, jobs=None):
             res["ok"] = False
             res["mismatch"] = res["problems"][0]
     return results
+
+
+# ---------------------------------------------------------------------------
+# building blocks of the checks C10 / C09 / C11x / C13x
+# ---------------------------------------------------------------------------
+GRANULES = [4, 8, 12, 16, 20, 24, 28, 32, 36, 40, 44, 48, 52, 56, 60, 64, 4096]
+F4_TEXT = "Assertion `bs.offset >= head_offs' failed"
+
+
+def make_specs(rng, count, kinds=None, flavors=("dbg", "rel"), corpus=()):
+    specs = []
+    for c in corpus:
+        specs.append(RunSpec(c, rng.range(2, 8), rng.below(100000), rng.choice([16, 64]), rng.choice([7, 300]), "dbg"))
+    while len(specs) < count:
+        c = gen_crafted(rng, kind=rng.choice(kinds) if kinds else None)
+        specs.append(RunSpec(c, rng.range(1, 8), rng.below(100000), rng.choice(GRANULES),
+                             rng.choice([1, 7, 100, 300, 5000]), rng.choice(list(flavors))))
+    return specs
+
+
+def classify_crash(rc, err):
+    """None if the exit is a normal 0/1; otherwise a short description."""
+    if rc in (0, 1):
+        return None
+    if F4_TEXT in err:
+        return "F4: assert in can_attach (stale retrieve job below head_offs)"
+    if "AddressSanitizer" in err:
+        m = re.search(r"AddressSanitizer: ([\w-]+)", err)
+        return "sanitizer: " + (m.group(1) if m else "error")
+    if rc == 124:
+        return "timeout (possible deadlock)"
+    if rc < 0:
+        return "killed by signal %d" % (-rc)
+    return "exit status %d" % rc
+
+
+def correspond_replay(check, count, kinds=None, corpus=()):
+    """Tie (b): every consecutive pair of trace records of real runs must be a model
+    step, final-state conditions after complete runs.  Returns the coverage dict
+    and appends Broken entries to check.broken."""
+    specs = make_specs(check.rng, count, kinds=kinds, corpus=corpus)
+    work = os.path.join(check.work, "traces")
+    res = replay_runs(specs, work)
+    hist = {}
+    nontriv = set()
+    steps = 0
+    bad = 0
+    samples = []
+    for r in res:
+        k = "%s/rc=%s" % (r["spec"].c.note.split("@")[0], r["rc"] if r["rc"] in (0, 1) else "crash")
+        hist[k] = hist.get(k, 0) + 1
+        steps += r["nsteps"]
+        if r["maxbusy"] >= 2:
+            nontriv.add(r["spec"].desc())
+        if not r["ok"]:
+            bad += 1
+            if bad <= 4:
+                check.broken.append(Broken("correspondence", "trace of `lbzip2 -d` is not a run of the SchedX model: " + r["spec"].desc(),
+                                           (r["mismatch"] or "")[:1800]))
+                path = vlib.write_replay(check.pid, "trace_mismatch_%d.json" % bad, {
+                    "input_hex": r["spec"].c.data.hex(), "n": r["spec"].n, "seed": r["spec"].seed, "in_granul": r["spec"].ig,
+                    "out_granul": r["spec"].og, "flavor": r["spec"].flavor, "mismatch": r["mismatch"]})
+        if len(samples) < 4:
+            samples.append({"run": r["spec"].desc(), "records": r["nrec"], "events": r["nsteps"], "rc": r["rc"]})
+    check.replay_results = res
+    return {"evaluations": len(res), "distinct_nontrivial": len(nontriv), "trace_events_checked": steps,
+            "rule": "runs of the real binary (asserts-on and NDEBUG builds) under hooks H1/H2/H3 on crafted inputs; every "
+                    "consecutive pair of trace records must be a step of the extracted model with the guards/task order/"
+                    "capacities regenerated from the source; non-trivial = distinct runs in which at least two work units "
+                    "were held simultaneously",
+            "samples": samples, "histogram": hist, "mismatching_runs": bad,
+            "runs_with_speculative_candidates": sum(1 for r in res if r["spurious"])}
+
+
+def reference_run(data, timeout=120):
+    """`lbzip2 -dc -n1` with the shipped granules, no hooks active."""
+    exe = vlib.build_lbzip2("rel")
+    return run_lbzip2(exe, data, ["-dc", "-n1"], timeout=timeout)
+
+
+def is_prefix(a, b):
+    return len(a) <= len(b) and b[:len(a)] == a
+
+
+def hunt_f4(check, tries=160):
+    """Concrete replay of finding F4 on the real binary: the valid file of
+    notes/design-experiments/craft4.py, 64-byte input blocks (hook H2), eight workers."""
+    from concurrent.futures import ThreadPoolExecutor
+    c = craft_f4()
+    out = []
+    for flavor, want in (("dbg", "abort"), ("asan", "uaf")):
+        try:
+            exe = vlib.build_lbzip2(flavor)
+        except vlib.BuildError:
+            continue
+
+        def one(i):
+            env = hook_env(seed=None if i % 2 == 0 else i, ig=64)
+            env["ASAN_OPTIONS"] = "detect_leaks=0"
+            rc, o, e = run_lbzip2(exe, c.data, ["-dc", "-n8"], env=env, timeout=120)
+            return i, rc, o, e.decode("latin-1")
+        with ThreadPoolExecutor(max_workers=max(2, vlib.NCPU // 2)) as ex:
+            hit = None
+            n = tries if flavor == "dbg" else tries // 4
+            for i, rc, o, e in ex.map(one, range(n)):
+                if classify_crash(rc, e) and hit is None:
+                    hit = (i, rc, e)
+        if hit:
+            i, rc, e = hit
+            out.append(Violation(
+                "F4-stale-retrieve-job:" + flavor,
+                "valid input, `LBZIP2_VERIF_IN_GRANUL=64 lbzip2-%s -dc -n8`: %s (the speculative retrieve job is re-queued below head_offs, "
+                "expand.c do_retrieve on MORE)" % (flavor, classify_crash(rc, e)),
+                {"input_hex": c.data.hex(), "expected_output_sha256": hashlib.sha256(c.plain).hexdigest(),
+                 "cmd": "LBZIP2_VERIF_IN_GRANUL=64 %s.work/bin/lbzip2-%s -dc -n8 < input  (repeat; about one run in three fails)" % ("", flavor),
+                 "env": {"LBZIP2_VERIF_IN_GRANUL": "64", "LBZIP2_VERIF_SCHED": None if i % 2 == 0 else str(i)}, "n": 8,
+                 "flavor": flavor, "rc": rc, "stderr": e[-1500:], "kind": "f4"}))
+    return out
+
+
+def model_exhibits_f4():
+    """Does SchedX/XF4Refuted.v (witness event list driving the regenerated model
+    below head_offs) compile for the current source?"""
+    with vlib.Lock("coq"):
+        b = vlib.coq_build(["SchedX/XF4Refuted.vo"], timeout=900)
+    return b["ok"]
